@@ -241,7 +241,7 @@ fn c16_q_container_len_5() {
 #[cfg_attr(kani, kani::proof)]
 #[cfg_attr(kani, kani::unwind(9))]
 #[cfg_attr(not(kani), test)]
-fn c16_x_container_len_7() {
+fn c16_t_container_len_7() {
     walk_len::<7>();
 }
 
